@@ -205,13 +205,23 @@ class NativeShim:
 
 class Facade:
     """Uniform access for workloads: ``with Facade(kind, disk) as fa:`` then pass
-    ``**fa.kw`` (``{"filesystem": simfs}`` or ``{}`` for the native default)."""
+    ``**fa.kw`` (``{"filesystem": fs}`` or ``{}`` for the native default) and hand
+    the library ``fa.p(world_path)``.
+
+    kinds: simfs | native   - stubs over a SimDisk (faults possible)
+           memoryfs | realos - the real things over a RealDisk (stub-fidelity slice)"""
 
     def __init__(self, kind, disk):
         self.kind = kind
         self.disk = disk
         self.kw = {}
+        self.root = ""
         self._shim = None
+        self._saved_os = None
+
+    @property
+    def native_like(self):
+        return self.kind in ("native", "realos")
 
     def __enter__(self):
         if self.kind == "simfs":
@@ -220,7 +230,15 @@ class Facade:
         elif self.kind == "native":
             self._shim = NativeShim(self.disk)
             self._shim.__enter__()
-            self.kw = {}
+        elif self.kind == "realos":
+            import simfile._private.nativeosfs as mod
+            self._mod = mod
+            self._saved_os = mod.os
+            mod.os = _ListingOS(self.disk)
+            self.root = self.disk.root
+        elif self.kind == "memoryfs":
+            self.fs = self.disk.mem
+            self.kw = {"filesystem": self.fs}
         else:
             raise ValueError(self.kind)
         return self
@@ -228,17 +246,177 @@ class Facade:
     def __exit__(self, *exc):
         if self._shim is not None:
             self._shim.__exit__(*exc)
+        if self._saved_os is not None:
+            self._mod.os = self._saved_os
+        if self.kind in ("realos", "memoryfs"):
+            self.disk.cleanup()
         return False
 
-    # path helpers in the façade's own semantics
+    def p(self, path):
+        """The path to hand to the library for a world path."""
+        if not path:
+            return path
+        if self.root:
+            return self.root + (path if path.startswith("/") else "/" + path)
+        return path
+
+    def unroot(self, path):
+        if self.root and isinstance(path, str) and path.startswith(self.root):
+            return path[len(self.root):] or "/"
+        return path
+
+    def open(self, path, mode, **kw):
+        """Open a world path the way the library's filesystem argument would."""
+        if self.native_like:
+            import simfile._private.nativeosfs as nmod
+            return nmod.NativeOSFS().open(self.p(path), mode, **kw)
+        return self.fs.open(path, mode, **kw)
+
+    # path helpers in the facade's own semantics
     def join(self, *parts):
-        if self.kind == "native":
+        if self.native_like:
             return posixpath.join(*parts)
         import fs.path
         return fs.path.join(*parts)
 
     def normpath(self, p):
-        if self.kind == "native":
+        if self.native_like:
             return posixpath.normpath(p)
         import fs.path
         return fs.path.normpath(p)
+
+
+# ---------------------------------------------------------------------------
+# Stub-fidelity slice: the same scenarios on the real things the quantifiers
+# name - the native OS filesystem (a real temporary directory through the real
+# NativeOSFS with the real io/os modules) and a real in-memory PyFilesystem
+# (fs.memoryfs.MemoryFS).  No faults can be injected here; listing order is
+# still owned by the simulator (the real listing is sorted, then permuted with
+# the run's seeded permutation), so these runs replay as well.
+# ---------------------------------------------------------------------------
+import random as _random
+import shutil as _shutil
+import tempfile as _tempfile
+
+
+class RealDisk:
+    """Same read-side interface as SimDisk over a real filesystem."""
+
+    def __init__(self, world, config, kind):
+        config = config or {}
+        self.kind = kind
+        self.events = []
+        self.listings = []
+        self.fired = []
+        self.buggify = {}
+        self.seq = 0
+        self.listing_mode = config.get("listing", "sorted")
+        self.listing_seed = int(config.get("listing_seed", 0))
+        self.on_open_w = None
+        if kind == "realos":
+            base = "/dev/shm" if _real_os.path.isdir("/dev/shm") else _real_os.path.expanduser("~/scratch")
+            _real_os.makedirs(base, exist_ok=True)
+            self.root = _tempfile.mkdtemp(prefix="simv-", dir=base)
+            for d in world.get("dirs", []):
+                _real_os.makedirs(self.root + norm(d), exist_ok=True)
+            for p, hx in world.get("files", {}).items():
+                p = norm(p)
+                _real_os.makedirs(self.root + posixpath.dirname(p), exist_ok=True)
+                with open(self.root + p, "wb") as f:
+                    f.write(bytes.fromhex(hx))
+            self.mem = None
+        else:
+            from fs.memoryfs import MemoryFS
+            disk = self
+
+            class RecMemoryFS(MemoryFS):
+                def listdir(self, path):
+                    ents = sorted(super().listdir(path))
+                    return disk.permute(norm(abspath(normpath(path))), ents)
+
+            self.root = ""
+            self.mem = RecMemoryFS()
+            for d in world.get("dirs", []):
+                self.mem.makedirs(norm(d), recreate=True)
+            for p, hx in world.get("files", {}).items():
+                p = norm(p)
+                self.mem.makedirs(posixpath.dirname(p), recreate=True)
+                self.mem.writebytes(p, bytes.fromhex(hx))
+
+    def permute(self, p, ents):
+        self.seq += 1
+        mode = self.listing_mode
+        out = list(ents)
+        if mode != "sorted":
+            key = "%d|%s" % (self.listing_seed, p) if mode == "stable" \
+                else "%d|%s|%d" % (self.listing_seed, p, self.seq)
+            _random.Random(key).shuffle(out)
+        self.listings.append((self.seq, p, list(out)))
+        return out
+
+    def snapshot(self):
+        if getattr(self, "_final", None) is not None:
+            return self._final
+        files, dirs = {}, {"/"}
+        if self.kind == "realos":
+            for dp, dns, fns in _real_os.walk(self.root):
+                rel = dp[len(self.root):] or "/"
+                dirs.add(rel)
+                for fn in fns:
+                    with open(_real_os.path.join(dp, fn), "rb") as f:
+                        files[posixpath.join(rel, fn)] = f.read()
+        else:
+            for dp, ds, fs_ in self.mem.walk("/"):
+                dirs.add(norm(dp))
+                for info in fs_:
+                    p = posixpath.join(norm(dp), info.name)
+                    files[p] = self.mem.readbytes(p)
+        return (files, frozenset(dirs))
+
+    def log_digest(self):
+        import hashlib
+        h = hashlib.sha256()
+        files, dirs = self.snapshot()
+        for p in sorted(files):
+            h.update(p.encode("utf-8", "surrogateescape"))
+            h.update(files[p])
+        for ev in self.listings:
+            h.update(repr(ev).encode())
+        return h.hexdigest()
+
+    def cleanup(self):
+        if getattr(self, "_final", None) is not None:
+            return
+        final = self.snapshot()
+        self._final = final
+        if self.kind == "realos":
+            _shutil.rmtree(self.root, ignore_errors=True)
+        elif self.mem is not None:
+            self.mem.close()
+
+
+class _ListingOS:
+    """The real os module with listdir owned by the simulator."""
+
+    def __init__(self, disk):
+        self._disk = disk
+
+    def listdir(self, path):
+        ents = sorted(_real_os.listdir(path))
+        p = posixpath.normpath(path)
+        if p.startswith(self._disk.root):
+            p = p[len(self._disk.root):] or "/"
+        return self._disk.permute(norm(p), ents)
+
+    def __getattr__(self, name):
+        return getattr(_real_os, name)
+
+
+def make_disk(world, config, faults, facade):
+    if facade in ("realos", "memoryfs"):
+        if faults:
+            raise ValueError("faults need a simulated disk")
+        return RealDisk(world, config, facade)
+    return SimDisk(world, config, faults)
+
+
